@@ -1,11 +1,57 @@
-//! C12 (not built yet)
-use crate::report::{Disagreement, Run};
-use serde_json::Value;
+//! C12 Inserting rows or columns preserves every value.
+//!
+//! Space: every workbook of `structural::specs` (data strip with one — thorough: also two — interesting contents at
+//! every position, three variants of arrays/descriptors, both orientations) × both APIs × every insertion (position
+//! 1–6 and against the last row/column, counts 1–2, thorough 1–3). Oracle: the displacement model of `structural`.
 
-pub fn run(run: &mut Run) {
-    run.machinery_errors.push("C12: check not built yet".into());
+use crate::report::{Disagreement, Run};
+use crate::structural::{self as st, Axis, SOp, Spec};
+use serde_json::{json, Value};
+
+pub fn ops(thorough: bool, axis: Axis) -> Vec<SOp> {
+    let mut v = vec![];
+    let kmax = if thorough { 3 } else { 2 };
+    for p in 1..=st::STRIP {
+        for k in 1..=kmax {
+            v.push(SOp::Insert { p, k });
+        }
+    }
+    // beyond the strip, and against the end of the grid (references pushed off)
+    v.push(SOp::Insert { p: 7, k: 1 });
+    v.push(SOp::Insert { p: axis.last(), k: 1 });
+    v.push(SOp::Insert { p: axis.last() - 1, k: 2 });
+    v.push(SOp::Insert { p: axis.last() - 5, k: kmax });
+    v
 }
 
-pub fn replay(_case: &Value) -> Vec<Disagreement> {
-    vec![]
+pub fn run(run: &mut Run) {
+    let thorough = run.tier.thorough();
+    let specs = st::specs(thorough, true);
+    let f = move |s: &Spec| ops(thorough, s.axis);
+    let (out, errs) = st::run_family(&specs, &f, "C12", false);
+    run.sample(st::case_json("C12", &specs[0], st::Api::Model, &ops(thorough, specs[0].axis)[0]));
+    run.sample(st::case_json("C12", &specs[specs.len() / 2], st::Api::User, &ops(thorough, specs[specs.len() / 2].axis)[5]));
+    run.sample(st::case_json("C12", &specs[specs.len() - 1], st::Api::User, &ops(thorough, specs[specs.len() - 1].axis).last().unwrap()));
+    run.bound = json!({
+        "workbooks": specs.len(),
+        "orientations": ["rows", "columns"],
+        "variants": 3,
+        "interesting_contents": st::CONTENTS,
+        "interesting_cells_per_workbook": if thorough { "1 (all variants) and 2 (variant 0, unordered content pairs at every position pair)" } else { "1" },
+        "positions": "1..=7, last, last-1, last-5",
+        "counts": if thorough { "1..=3" } else { "1..=2" },
+        "apis": ["Model", "UserModel"],
+        "observers_per_workbook": "about 130 formulas: =A{t} =$A${t} =A${t} =$A{t} SUM(A{i}:A{j}) SUM(A:A) SUM({t}:{t}) on the edited sheet, Sheet1!-qualified on a second sheet, defined names and their readers, references to the last rows/columns, Sheet2-local bystanders",
+        "hash_seed": crate::env::hash_seed(),
+    });
+    run.rule = "every accepted insertion on a workbook with a 6-cell data strip, observers before, inside and after the insertion point and descriptors spanning it; each is non-trivial: it shifts at least one data cell or reference".into();
+    run.assume("reference comparison is on the cells denoted (formula text parsed back with the public parser), not on `$` markers or spelling");
+    run.assume("sizes/hidden flags of rows and columns are not judged by C12 (statement silent); the resolved style of empty cells in styled rows/columns is");
+    run.assume("a range that loses its far end beyond the grid is accepted as #REF! or as exactly the surviving cells");
+    run.assume("hash-map iteration order fixed by VERIF_HASH_SEED for this run (listed seed only)");
+    st::fill_run(run, out, errs);
+}
+
+pub fn replay(case: &Value) -> Vec<Disagreement> {
+    st::replay_case(case, false)
 }
